@@ -396,7 +396,7 @@ func Generate(family string, seed int64, idx int) Scenario {
 		sc.Script = "snapcfg"
 	case "cfgtrunc":
 		p := &sc.P
-		p.Voters, p.NonVoters, p.Spares = pick(r, 3, 3, 5), pick(r, 1, 1, 0), 0
+		p.Voters, p.NonVoters, p.Spares = pick(r, 3, 4, 4, 5), pick(r, 1, 1, 0), 0
 		p.PreVoteOff = make([]bool, p.N())
 		if r.Intn(2) == 0 {
 			for i := range p.PreVoteOff {
